@@ -23,6 +23,8 @@ def run(ctx):
     # lockstep rules below need (C03_m: a helper that returns a VIEW of the only shell)
     rule_F5(ctx)
     rule_F7(ctx)
+    from ..effects import rule_F12
+    rule_F12(ctx)      # the likelihood's own return array is never stored
     from ..effects import rule_F11
     rule_F11(ctx)      # the returned triples are copies, not views of the stored rows
     rule_L1_sampler(ctx, {'rows', 't', 'shell'})
